@@ -8,7 +8,7 @@ from sa.flow import show, subterms
 from sa.model import AnalysisError, norm, parent, walk_no_nested
 from sa.rules import construct_text
 
-from .common import alts, is_call, is_const, prov, unshipped_modules
+from .common import include_rules, alts, is_call, is_const, prov, unshipped_modules
 
 ENUM = ("os.listdir", "os.scandir", "os.walk", "os.fwalk", "glob.glob", "glob.iglob")
 ENUM_M = ("iterdir", "glob", "rglob")
@@ -356,6 +356,8 @@ def run(report, p):
     if n_sets == 0:
         raise AnalysisError("no iteration over a set found (rename detection loops expected)")
 
+    # ---- rules shared with other properties (same mechanism, same rule, reported under every property it can break)
+    include_rules(report, p, 'c07', ['R7.2'], 'directory hashes must not depend on enumeration order: the list hash sorts')
     report.not_decided += ["byte identity of manifests at run time", "behaviour under exotic spellings of the root path (a/../b, symlinked ancestors)", "order of 'missing file' lines in the console output"]
 
 
